@@ -197,6 +197,10 @@ def _inv_derive_wrong_count(L):
     L.classes['DAB'].derive_unit_from(L.units['a0'][0], symbol='dx')
 
 
+def _inv_derive_too_many(L):
+    L.classes['DAB'].derive_unit_from(L.units['a0'][0], L.units['b0'][0], L.units['a0'][0], symbol='dw')
+
+
 def _inv_derive_wrong_type(L):
     L.classes['DAB'].derive_unit_from(L.units['b0'][0], L.units['a0'][0], symbol='dy')
 
@@ -236,6 +240,7 @@ INVALID = [
     ('unit-bad-definition', ('DA',), 'TypeError', _inv_unit_bad_definition, ['aw']),
     ('derive-wrong-count', ('DAB',), 'ValueError', _inv_derive_wrong_count, ['dx']),
     ('derive-wrong-type', ('DAB',), 'ValueError', _inv_derive_wrong_type, ['dy']),
+    ('derive-too-many', ('DAB',), 'ValueError', _inv_derive_too_many, ['dw']),
     ('derive-on-base', ('DA',), 'TypeError', _inv_derive_on_base, ['dz']),
     ('derive-nonunit', ('DAB',), 'TypeError', _inv_derive_nonunit, ['dv']),
     ('derive-empty-symbol', ('DAB',), 'ValueError', _inv_derive_empty_symbol, ['']),
